@@ -373,8 +373,10 @@ def errno_reads(c, chk, rid, funcs=None):
                     continue
                 calls = [e for e in before if e.kind == 'call' and not e.inlined and e.name not in ('strlen', 'strcmp', 'strcasecmp', 'strspn', 'strcspn', 'strchr')]
                 last = calls[-1] if calls else None
-                failed = last is not None and any(sym.mentions(c2, lambda v: v == last.res) and not sym.mentions(c2, lambda v: v[0] == 'ld' and v[1] == ('errno',))
-                                                  for c2, _, _ in p.assume[:seq + 1])
+                # (a user callback is not a library call that sets errno when it fails: its verdict says nothing about errno)
+                failed = last is not None and not last.name.startswith('indirect:') and \
+                    any(sym.mentions(c2, lambda v: v == last.res) and not sym.mentions(c2, lambda v: v[0] == 'ld' and v[1] == ('errno',))
+                        for c2, _, _ in p.assume[:seq + 1])
                 if failed:
                     continue
                 bad = bad or (p, ins, last)
